@@ -40,6 +40,8 @@ var (
 	renameFnInv   = map[funcID]funcID{}    // reference -> current
 	renameType    = map[[2]string]string{} // (pkg, current name) -> reference name
 	renameTypeInv = map[[2]string]string{} // (pkg, reference name) -> current name
+	renameVar     = map[[2]string]string{} // (pkg, current name) -> reference name
+	renameVarInv  = map[[2]string]string{} // (pkg, reference name) -> current name
 	renameNotes   []string
 )
 
@@ -68,6 +70,21 @@ func curTypeName(pkg, refName string) string {
 		return c
 	}
 	return refName
+}
+
+// curVarName: the current name of the package-level variable the reference tree calls refName.
+func curVarName(pkg, refName string) string {
+	if c, ok := renameVarInv[[2]string{pkg, refName}]; ok {
+		return c
+	}
+	return refName
+}
+
+func canonVarName(pkg, name string) string {
+	if r, ok := renameVar[[2]string{pkg, name}]; ok {
+		return r
+	}
+	return name
 }
 
 func rawIDOf(fn *ssa.Function) funcID {
@@ -166,6 +183,11 @@ func inventory(p *Program) []invEntry {
 			switch m := sp.Members[n].(type) {
 			case *ssa.Function:
 				addFn(m)
+			case *ssa.Global:
+				if strings.HasPrefix(n, "init$") {
+					continue
+				}
+				out = append(out, invEntry{kind: "V", pkg: pk.PkgPath, name: n, sig: strings.ReplaceAll(types.TypeString(m.Type().(*types.Pointer).Elem(), qual), "\t", " ")})
 			case *ssa.Type:
 				nt, ok := m.Type().(*types.Named)
 				if !ok {
@@ -292,6 +314,38 @@ func resolveRenames(p *Program, verifDir string) error {
 			renameType[[2]string{c.pkg, c.name}] = r.name
 			renameTypeInv[[2]string{r.pkg, r.name}] = c.name
 			renameNotes = append(renameNotes, fmt.Sprintf("type %s.%s of the reference tree is now named %s (same package, same underlying type / method set)", relOrRoot(r.pkg), r.name, c.name))
+		}
+	}
+	// ---- package-level variables: same package, same type, unique
+	var missV, newV []invEntry
+	for _, e := range ref {
+		if _, ok := curBy[e.key()]; !ok && e.kind == "V" {
+			missV = append(missV, e)
+		}
+	}
+	for _, e := range cur {
+		if _, ok := refBy[e.key()]; !ok && e.kind == "V" {
+			newV = append(newV, e)
+		}
+	}
+	for _, r := range missV {
+		var cands []invEntry
+		for _, c := range newV {
+			if c.pkg == r.pkg && c.sig == r.sig {
+				cands = append(cands, c)
+			}
+		}
+		nSame := 0
+		for _, r2 := range missV {
+			if r2.pkg == r.pkg && r2.sig == r.sig {
+				nSame++
+			}
+		}
+		if len(cands) == 1 && nSame == 1 {
+			c := cands[0]
+			renameVar[[2]string{c.pkg, c.name}] = r.name
+			renameVarInv[[2]string{r.pkg, r.name}] = c.name
+			renameNotes = append(renameNotes, fmt.Sprintf("package-level variable %s.%s of the reference tree is now named %s (same package and type)", relOrRoot(r.pkg), r.name, c.name))
 		}
 	}
 	canonSig := func(pkg, sig string) string {
